@@ -6,7 +6,9 @@ LEVEL = 'proof'
 RULE = ('peg stage: Parser(text)._read_<rule>() of the shipped parser (generated akn.py + the hand-written override) vs the Gallina PEG '
         'interpreter on the grammar regenerated from akn.peg: success/failure, end offset and the whole tree (spans, mixed-in types, '
         'labelled children; children of unlabelled runs of leaf nodes by span only). Inputs: pre-parsed generated documents, '
-        'mutations and token soup, their line-start suffixes and inline-start suffixes, for all grammar rules as start symbols. '
+        'mutations and token soup, their line-start suffixes and inline-start suffixes, for all grammar rules as start symbols; and '
+        'through the public entry point parse_with_failure on ONE reused AkomaNtosoParser object: the same text parsed with several roots '
+        'that share an inner rule, in a row, each result compared with what the PEG prescribes for that (root, text). '
         'non-trivial = the rule accepted and built a tree with >= 3 nodes; distinct by (rule, input).')
 TRUSTED_BASE = [
     'Coq 8.16.1 kernel; vm_compute for the grammar equality and table lemmas; no axioms',
@@ -116,10 +118,44 @@ def compare(x, y):
         return y[0] == 'OK' and sx.num(y[1]) == x[1] and impl.collapse_runs(x[2]) == impl.collapse_runs(model_tree(y[2]))
     return y[0] == x[0]
 
+# roots whose rules wrap the same typed inner rule: the same text is parsed with all of them, in a random order, on one parser object
+ROOT_GROUPS = [['act', 'bill', 'hierarchical_structure'], ['doc', 'statement', 'debateReport', 'open_structure'], ['debate', 'debate_structure'],
+               ['judgment', 'judgment_structure']]
+
+def api_cases(ctx, budget):
+    p = impl.parser()
+    rules = set(all_rules())
+    out = []
+    for _ in range(ctx.n(60, 2000) * budget):
+        g = [r for r in ctx.rng.choice(ROOT_GROUPS) if r in rules]
+        if len(g) < 2: continue
+        seq = [ctx.rng.choice(g) for _ in range(ctx.rng.randint(2, 4))]
+        t = p.pre_parse(gen.any_text(ctx.rng, g[0]))
+        out.append((t, seq))
+    return out
+
+def api_stream(ctx, budget, sink):
+    """parse_with_failure (the way every caller reaches the parser) on a reused AkomaNtosoParser: accept/reject and whole trees,
+    node types included, must be what the PEG prescribes for (root, text) - whatever was parsed before on that object"""
+    cs = api_cases(ctx, budget)
+    a = impl.pmap(impl.peg_api_seq, cs, chunk=8)
+    flat = [(r, t) for t, seq in cs for r in seq]
+    b = model.run([['peg', r, t] for r, t in flat])
+    i = 0
+    for (t, seq), xs in zip(cs, a):
+        for k, (r, x) in enumerate(zip(seq, xs)):
+            y = b[i]; i += 1
+            ctx.evaluations += 1; ctx.count('api_seq_cases'); ctx.count('api_' + str(x[0]))
+            if isinstance(y, list) and y[0] == 'OK' and sx.num(y[1]) != len(t):
+                y = ['FAIL']          # the API wants the whole input
+            if not compare(x, y):
+                sink(('peg-api', {'text': t, 'roots': seq, 'at': k}, x[:2], y[:2] if isinstance(y, list) else y))
+
 def correspondence(ctx):
     cs = cases(ctx, 1)
     a = impl.pmap(impl.peg_rule, cs, chunk=32)
     b = model.run([['peg', r, t] for r, t in cs])
+    api_stream(ctx, 1, ctx.disagreements.append)
     okrules = {}
     for c, x, y in zip(cs, a, b):
         ctx.evaluations += 1; ctx.count('peg_cases'); ctx.count('peg_' + str(x[0]))
@@ -138,6 +174,10 @@ def correspondence(ctx):
 def search(ctx, budget):
     # for C10 the correspondence IS the oracle: a disagreement between akn.py and the interpreter on akn.peg is a violation
     for stage, case, x, y in ctx.disagreements:
+        if stage == 'peg-api':
+            ctx.failures.append((dict(case, stage='peg-api', impl=x, peg_interpreter=y),
+                                 'parse_with_failure on a reused parser and the PEG disagree on root %s (call %d of %r on the same text)' % (case['roots'][case['at']], case['at'] + 1, case['roots'])))
+            continue
         ctx.failures.append((dict(case, stage='peg', impl=x, peg_interpreter=y), 'shipped parser and PEG disagree on rule %s' % case['rule']))
     if budget > 1 and not ctx.disagreements:
         cs = cases(ctx, budget)
@@ -147,6 +187,7 @@ def search(ctx, budget):
             ctx.evaluations += 1
             if not compare(x, y):
                 ctx.failures.append(({'stage': 'peg', 'rule': c[0], 'text': c[1], 'impl': x[:2]}, 'shipped parser and PEG disagree on rule %s' % c[0]))
+        api_stream(ctx, budget, lambda d: ctx.failures.append((dict(d[1], stage='peg-api', impl=d[2]), 'parse_with_failure on a reused parser and the PEG disagree')))
 
 CLASSIFIERS = {}
 
@@ -154,6 +195,13 @@ def replay(obj):
     case = obj.get('case') or (obj.get('disagreements') or [{}])[0].get('case')
     if not case:
         print('nothing to replay:', obj.get('broken_obligations')); return 1
+    if case.get('stage') == 'peg-api':
+        xs = impl.peg_api_seq((case['text'], case['roots'])); ok = True
+        for r, x in zip(case['roots'], xs):
+            y = model.run([['peg', r, case['text']]])[0]
+            if isinstance(y, list) and y[0] == 'OK' and sx.num(y[1]) != len(case['text']): y = ['FAIL']
+            print('root', r, 'akn.py:', x[:1], [n for n in x[2][2]] if x[0] == 'OK' else '', 'akn.peg:', y[:1]); ok = ok and compare(x, y)
+        print('agree:', ok); return 0 if ok else 1
     x = impl.peg_rule((case['rule'], case['text'])); y = model.run([['peg', case['rule'], case['text']]])[0]
     print('rule', case['rule'], 'text', repr(case['text'])[:300]); print('akn.py :', x[:2]); print('akn.peg:', y[:2] if isinstance(y, list) else y)
     ok = compare(x, y); print('agree:', ok); return 0 if ok else 1
